@@ -16,7 +16,7 @@ RULE = ("a list of 1-9 rectangles on a lattice (dyadic or decimal unit >= 0.0025
         "(create_stog after set_epsilon) and through Netlist loading of a soft module. Oracle: brute force over all candidate "
         "trunks on the exact lattice coordinates, identity based. non-trivial = at least 3 rectangles; distinct = distinct case.")
 ASSUMPTIONS = [
-    "lattice unit >= 0.0025 and coordinates <= 30 units, so every gap/overhang/overlap (>= one unit, >= one unit^2) is far above FRAME's "
+    "lattice unit >= 0.0025 and coordinates <= 30 units (dyadic units also shifted by up to 3e6 units: exact in floats), so every gap/overhang/overlap (>= one unit, >= one unit^2) is far above FRAME's "
     "epsilons (1e-12 x smallest side; its square root for areas) and every exact contact is far below them",
     "'every other rectangle' is read per list element (identity), so a second copy of the trunk is another rectangle that overlaps it",
     "branches may overlap each other: the statement only constrains each branch against the trunk",
@@ -96,7 +96,7 @@ def run_stog(c):
     else:
         area = float(sum(w * h for _, _, w, h in cs))
         doc = {"Modules": {"M": {"area": area, "rectangles": [[X.num(x), X.num(y), X.num(w), X.num(h)] for x, y, w, h in cs]},
-                           "T": {"area": 1}},
+                           "T": {"area": 1, "rectangles": [[1000.5, 1000.5, 1, 1]]}},
                "Nets": [["M", "T"]]}
         try:
             nl = Netlist(doc)
@@ -123,6 +123,37 @@ def run_stog(c):
         lst2 = m.rectangles
         res2 = m.create_stog()
         judge(dict(c), lst2, res2, "Module.create_stog (second call)")
+        # the rectangles are edited in place (one moved, or one added) and the module is recognised again: the verdict
+        # and the roles must follow the new geometry, not the earlier recognition
+        ed = c.get("edit")
+        if ed:
+            rects2 = [list(r) for r in c["rects"]]
+            if ed[0] == "move":
+                k = ed[1] % n
+                r = rects2[k]
+                r2 = [r[0] + ed[2], r[1] + ed[3], r[2] + ed[2], r[3] + ed[3]]
+                if min(r2[0] + r2[2], r2[1] + r2[3]) >= 0:
+                    rects2[k] = r2
+                    cx, cy, w, h = L.csr(r2, c["unit"])
+                    objs[k].center = Point(X.num(cx), X.num(cy))
+                    fl[k] = X.rect_cs(X.num(cx), X.num(cy), X.num(w), X.num(h))
+            else:
+                r2 = ed[1]
+                rects2.append(list(r2))
+                cx, cy, w, h = L.csr(r2, c["unit"])
+                newr = Rectangle(center=Point(X.num(cx), X.num(cy)), shape=Shape(X.num(w), X.num(h)))
+                m.add_rectangle(newr)
+                objs = objs + [newr]
+                fl = fl + [X.of_frame(newr)]
+            c2 = dict(c, rects=rects2, _objs=objs, _float_exact=fl)
+            via = ed[-1]
+            if via == "netlist":
+                nl.create_stogs()
+                res3 = m.has_stog
+            else:
+                res3 = m.create_stog()
+            judge(c2, m.rectangles, res3 if via != "netlist" else m.has_stog, "recognition after editing the rectangles in place (%s)" % via)
+            cls.append("edited-then-recognised-again")
     expected = n == 1 or any(trunk_ok(er, t) for t in range(n))
     ntr = sum(1 for t in range(n) if trunk_ok(er, t))
     cls.append("stog" if expected else "not-stog")
@@ -132,6 +163,8 @@ def run_stog(c):
     cls.append(c["mode"])
     if len({tuple(r) for r in c["rects"]}) < n:
         cls.append("duplicates")
+    if min(r[0] for r in c["rects"]) >= 4096:
+        cls.append("far-from-origin")
     return dict(nt=n >= 3, cls=cls)
 
 
@@ -214,10 +247,22 @@ def stog_s(draw):
         rects = rects[:9]
         rects = draw(st.permutations(rects)) if draw(_i(0, 3)) else rects
     pre = [draw(_i(0, 5)) for _ in rects] if draw(_i(0, 2)) == 0 else []
-    return dict(unit=unit, rects=[list(r) for r in rects], mode=mode, mut=mut, pre=pre)
+    # far from the origin (dyadic units only, so that every coordinate stays exact): the recogniser's tolerance is
+    # 1e-12 x the smallest side, which is then smaller than half an ulp of the coordinates
+    if Fr(unit).denominator & (Fr(unit).denominator - 1) == 0 and draw(_i(0, 3)) == 0:
+        off = draw(st.sampled_from([4096, 100000, 3000000]))
+        rects = [[r[0] + off, r[1] + off, r[2] + off, r[3] + off] for r in rects]
+    edit = None
+    if mode == "netlist" and draw(st.booleans()):
+        via = draw(st.sampled_from(["module", "netlist"]))
+        if draw(st.booleans()):
+            edit = ["move", draw(_i(0, 8)), draw(_i(-2, 2)), draw(_i(-2, 2)), via]
+        else:
+            edit = ["append", draw(L.int_rect(30, 30, 5, 5)), via]
+    return dict(unit=unit, rects=[list(r) for r in rects], mode=mode, mut=mut, pre=pre, edit=edit)
 
 
 def subchecks():
     return [Sub("lists", run_stog, strategy=stog_s(), n_quick=40000, n_thorough=1000000,
                 required=("stog", "not-stog", "several-trunks", "mut-gap", "mut-overhang", "mut-overlap", "mut-dup-trunk",
-                          "mut-dup-branch", "mut-extra", "direct", "netlist", "duplicates"))]
+                          "mut-dup-branch", "mut-extra", "direct", "netlist", "duplicates", "edited-then-recognised-again", "far-from-origin"))]
